@@ -21,7 +21,7 @@ META = {
 NAME = "c05"
 SDL = """
 enum Color { RED GREEN }
-input Inp { x: Int! y: [Int] = [1] c: Color = RED inner: Inp }
+input Inp { x: Int! y: [Int] = [1] c: Color = RED inner: Inp n: Int! = 10 }
 directive @d(i: Int, li: [Int], o: Inp, s: String = "ds", ni: Int! = 4) on FIELD
 type Query {
   p_i(x: Int): String  p_ni(x: Int!): String  p_di(x: Int = 7): String  p_li(x: [Int]): String  p_lli(x: [[Int]]): String
